@@ -1,0 +1,40 @@
+//go:build verif
+
+// Contracts for command partial-aftersun, checked by /verif's govc (comment-only file).
+package main
+
+//@ pure func tileOf(p string) tlog.Tile
+//@ pure func tileSpan(L int) int = ite(L <= 0, 256, ite(L == 1, 65536, ite(L == 2, 16777216, ite(L == 3, 4294967296, \
+//@      ite(L == 4, 1099511627776, ite(L == 5, 281474976710656, ite(L == 6, 72057594037927936, 0)))))))
+//@ pure func belowEdge(t tlog.Tile, size int) bool = t.L <= 6 && t.N < size / tileSpan(t.L)
+
+//@ assume func partial-aftersun.cleanDir#param.parseTilePath params path
+//@   ensures ret1 == nil ==> ret0 == tileOf(path)
+
+//@ func partial-aftersun.cleanDir props C18
+//@   requires size >= 0
+//@   call os.(*Root).Remove requires [C18] full-sibling: ok__1 && has(names, full)
+//@   call os.(*Root).Remove requires [C18] below-edge: t__1 == tileOf(trimSuffix(name__1, ".p")) && belowEdge(t__1, size)
+//@   call os.(*Root).Remove "name__2" requires [C18] is-partial: t__2 == tileOf(name__2) && t__2.W != 256
+//@   call os.(*Root).Remove "name__2" requires [C18] full-tile-nonempty: !isDirFI(fileInfoOf(root, cutBefore(name__2, ".p/"))) && sizeFI(fileInfoOf(root, cutBefore(name__2, ".p/"))) != 0
+//@   call partial-aftersun.cleanDir requires [C18] same-size: c_size == size && c_root == root
+
+//@ func partial-aftersun.overrideImmutable props C18
+//@   ensures [C18] guard: ret == nil ==> !isDirFI(fileInfoOf(root, cutBefore(name, ".p/"))) && sizeFI(fileInfoOf(root, cutBefore(name, ".p/"))) != 0
+//@   call strings.Cut requires [C18] sep: c_sep == ".p/" && c_s == name
+
+//@ func partial-aftersun.logSize props C18
+//@   returns [C18] verified: ret1 == nil ==> openedBy(n, signedCheckpoint, vlist1(verifier)) && isRFCVerifier(verifier, log.Name, pubKey)
+//@   returns [C18] origin: ret1 == nil ==> checkpoint == ckptOf(n.Text) && checkpoint.Origin == log.Name && ret0 == checkpoint.N
+
+//@ func partial-aftersun.mirroredLogSize props C18
+//@   returns [C18] origin-hash: ret1 == nil ==> originHashOf(checkpoint.Origin) == originHash && ret0 == checkpoint.N
+
+//@ lemma [C18] L-edge: forall size int, size2 int, L int, N int :: \
+//@    (0 <= size && size <= size2 && L <= 6 && 0 <= N && N < size / tileSpan(L)) ==> (N+1)*tileSpan(L) <= size2
+
+//@ census [C18] remove-sites: callers os.(*Root).Remove within partial-aftersun.cleanDir in partial-aftersun
+//@ census [C18] no-os-remove: callers os.Remove within none in partial-aftersun
+//@ census [C18] no-os-removeall: callers os.RemoveAll within none in partial-aftersun
+//@ census [C18] no-root-removeall: callers os.(*Root).RemoveAll within none in partial-aftersun
+//@ census [C18] cleandir-callers: callers partial-aftersun.cleanDir within partial-aftersun.main, partial-aftersun.cleanDir in partial-aftersun
